@@ -111,7 +111,8 @@ class Engine(object):
         specs = self.loopspecs.get(getattr(fr, 'fkey', None)) or {}
         tgt = ast.unparse(node.target) if hasattr(node, 'target') else 'while'
         kind = it.kind if it is not None else 'while'
-        for k in ('%s:%s' % (kind, tgt), 'target:' + tgt, kind, ordinal):
+        arity = len(node.target.elts) if hasattr(node, 'target') and isinstance(node.target, (ast.Tuple, ast.List)) else 1
+        for k in ('%s:%s' % (kind, tgt), 'target:' + tgt, '%s/%d' % (kind, arity), kind, ordinal):
             if k in specs:
                 return specs[k]
         return None
